@@ -63,8 +63,11 @@ def _gen_goal(tape, ctx, flavour, strategy, mode):
             if real_w:
                 w = [tape.choice([1, 2, 3, 5, -1, -3], "w.num"), tape.choice([1, 2, 3], "w.den")]
             else:
-                w = tape.choice([1, 2, 3, 4, 1, 2, -1, -2], "w.int")
+                w = tape.choice([1, 2, 3, 4, 1, 2, -1, -2, 0], "w.int")
             soft.append([c, w])
+        if soft and tape.chance(1, 4, "soft.dup"):
+            # the very same (clause, weight) pair given twice counts twice
+            soft.append(list(soft[tape.draw(len(soft), "soft.dup.which")]))
         return {"kind": "maxsmt", "soft": soft, "real_w": real_w, "signed": False}
     nt = 1 if k in ("min", "max") else tape.rint(1, 3, "goal.nterms")
     if flavour == "bv":
@@ -75,6 +78,8 @@ def _gen_goal(tape, ctx, flavour, strategy, mode):
         sort = bp.INT
         signed = False
     ts = [bp.gen_term(tape, sort, tape.rint(0, 2, "goal.depth"), ctx) for _ in range(nt)]
+    if nt >= 2 and tape.chance(1, 5, "goal.dupterm"):
+        ts[1] = ts[0]
     return {"kind": k, "t": ts, "signed": signed}
 
 
